@@ -183,7 +183,7 @@ func (c *Conn) AsyncRead() {
 					_ = c.closeWithError(err)
 					return
 				}
-				if n < len(*pbuf) {
+				if n < len(*pbuf) && !c.IsUDP() {
 					break
 				}
 			}
@@ -223,7 +223,9 @@ func (c *Conn) AsyncRead() {
 					_ = c.closeWithError(err)
 					return
 				}
-				if n < len(*pBuf) {
+				// a short read means "drained" for a stream only;
+				// more datagrams may be waiting behind this one.
+				if n < len(*pBuf) && !c.IsUDP() {
 					break
 				}
 			}
